@@ -45,7 +45,7 @@ def run_property(prop, tier, seed):
             summaries = {}
             with cf.ThreadPoolExecutor(max_workers=npar) as ex2:
                 futs = {ex2.submit(M.explore, scratch, mirpath, j["harness"], procs,
-                                   j.get("timeout_thorough" if tier == "thorough" else "timeout", 240), known_ids,
+                                   (j.get("timeout_thorough", 3 * j.get("timeout", 240)) if tier == "thorough" else j.get("timeout", 240)), known_ids,
                                    j.get("max_steps", 2_000_000)): j for j in e2}
                 for f in cf.as_completed(futs):
                     summaries[futs[f]["harness"]] = f.result()
